@@ -176,9 +176,30 @@ theorem prototypes_agree_swig :
   ⟨allMemB_sound (by decide +kernel), allMemPairB_sound (by decide +kernel)⟩
 
 /-- C++ (`cplusplus/xraylib++.h`) includes `xraylib.h`; every function it wraps by name (`_XRL_FUNCTION(f)`, `::f(`)
-is declared by the C headers (types are checked by the C++ compiler against those headers). -/
+is declared by the C headers.  (The C++ compiler checks the CALL inside a wrapper against those headers, but it converts
+silently — an `int` parameter forwarded to a `double` argument compiles; the wrappers' own declared types are the subject of
+`prototypes_agree_cpp_types`.) -/
 theorem prototypes_agree_cpp : ∀ n ∈ cpp_name_refs, n ∈ c_decl_names :=
   allMemB_sound (by decide +kernel)
+
+/-- C++: every wrapper of `xraylib++.h` — each instantiation of a wrapper template, each hand-written free function, each method of
+`Crystal::Struct` (which passes its member `cs` first), each free function that forwards to such a method, the copy constructor and the
+destructor — is declared with the arity, the parameter types and the result type of the C function it wraps, as that function shows
+itself to a caller (`P.vis`: the `xrl_error **` slot, the `int *` count out-parameter and the `Crystal_Array *` catalogue argument are
+supplied by the wrapper), under the type map `std::string` / `const char *` ↦ `char *`, `std::complex<double>` ↦ `xrlComplex`,
+`Struct &` / a returned `Struct` ↦ `Crystal_Struct *`, value class ↦ pointer to its C struct, `std::vector<std::string>` ↦ `char **`.
+`proto_cpp` is keyed by the wrapped C function; the wrapper ↦ C function map is the one C18 extracts from the wrapper bodies. -/
+theorem prototypes_agree_cpp_types : ProtosAgree proto_cpp (cproto.map P.vis) :=
+  protosAgreeExcept_nil.mp (protoB_sound (by decide +kernel))
+
+/-- the table of `prototypes_agree_cpp_types` is the real one (an extractor that silently reads nothing, or only the templates, fails here): at
+least 120 wrappers of at least 110 different C functions, 90 of them with two or more parameters, 20 with a result other than `double`, 15 that
+take the crystal (`Crystal_Struct *`, code 306); and every row names a function of the C table -/
+theorem cpp_types_nonvacuous :
+    proto_cpp.length ≥ 120 ∧ (proto_cpp.map (·.n)).eraseDups.length ≥ 110 ∧
+    (proto_cpp.filter fun p => p.args.length ≥ 2).length ≥ 90 ∧ (proto_cpp.filter fun p => p.ret != 200).length ≥ 20 ∧
+    (proto_cpp.filter fun p => p.args.contains 306).length ≥ 15 ∧ (proto_cpp.all fun p => cproto.any fun h => h.n == p.n) = true := by
+  decide +kernel
 
 /-! ## 4. exported symbols, versions -/
 
@@ -385,5 +406,8 @@ example : structsB [⟨5, [(1, 200)]⟩] [⟨5, [(1, 100)]⟩] = false := by dec
 example : agreeB [] [⟨5, 0, 1, 0⟩] [⟨5, 0, 2, 0⟩] = false := by decide
 example : completeB [] [5] [4, 6] = false := by decide
 example : protoB [] [⟨5, 200, [100]⟩] [⟨5, 200, [100, 302]⟩] = false := by decide
+/-- the C++ comparison is not trivially true: `int rel_angle` against the C prototype's `double` is rejected, the error slot is invisible -/
+example : protoB [] [⟨5, 400, [306, 200, 100]⟩] ([⟨5, 400, [306, 200, 200, 302]⟩].map P.vis) = false := by decide
+example : protoB [] [⟨5, 400, [306, 200, 200]⟩] ([⟨5, 400, [306, 200, 200, 302]⟩].map P.vis) = true := by decide
 
 end XrlL4.C20
